@@ -92,8 +92,8 @@ pub fn body_of(op: &ClientOp) -> Value {
                 json!({"jsonrpc":"2.0","id":id,"method":method,"params":{}})
             }
         }
-        ClientOp::UnknownNotification { method } => {
-            json!({"jsonrpc":"2.0","method":method,"params":{}})
+        ClientOp::UnknownNotification { method, params } => {
+            json!({"jsonrpc":"2.0","method":method,"params":params.clone().unwrap_or_else(|| json!({}))})
         }
         ClientOp::Shutdown { id } => {
             if id.rem_euclid(2) == 0 {
